@@ -41,7 +41,7 @@ P = {
    "increment inside a rendered partial, break/continue at top level of a render-for partial, render-for over an empty collection naming a missing partial are unspecified (skipped, counted)",
    "DESIGN.md §5 C08"),
  "C09": (True, "history exploration", "model_checking",
-   "breadth-first exhaustive exploration of all render-call histories up to length k on one shared parser, each call compared with the same call on a freshly built parser",
+   "breadth-first exhaustive exploration of all render-call histories up to length k on one shared parser (template sets for every stateful construct, failures after partial output inside every wrapping construct, and a construct zoo with every argument position dynamic plus every registered filter), each call compared with the same call on a freshly built parser",
    "State = history of render calls on shared Parser/Template objects; all histories of length <= k over (template x data) alphabets of 6 template sets (cycle/increment/ifchanged, assign/capture, break/continue incl. top-level break and failing renders, errors inside capture/include/render, valid/broken/missing partials with dynamic names, tablerow) under eager, lazy and on-demand stores; plus every generated C08 scenario rendered repeatedly on one parser shared by the whole enumeration.",
    "baseline = same call on a fresh parser, itself computed twice; template sets avoid multi-key object iteration",
    "DESIGN.md §5 C09"),
@@ -51,7 +51,7 @@ P = {
    "std write_all semantics; programs <= 3 (quick) / 4 (thorough) nodes over all writing constructs",
    "DESIGN.md §5 C10"),
  "C19": (True, "progen + store exploration", "model_checking",
-   "exhaustive scenario enumeration under the three compilation policies (differential), differential removal/replacement of the broken partial, and exhaustive exploration of PartialStore API call sequences on the three stores",
+   "exhaustive scenario enumeration under the three compilation policies (differential), differential removal/replacement of the broken partial, exhaustive exploration of PartialStore API call sequences on the three stores, and every partial source text of <= k lexical items under the three policies",
    "Every generated scenario rendered d0,d1,d0 per policy must agree across eager/lazy/on-demand and across repetitions; renders that do not reach the broken partial must be unchanged when it is replaced or removed; building the parser must succeed; all API call sequences of length <= k on the three stores must give identical observations.",
    "in-memory sources with truthful name listing; error comparison on the first message line",
    "DESIGN.md §5 C19"),
@@ -102,7 +102,7 @@ P = {
    "DESIGN.md §5 C18"),
  "C20": (True, "vsched", "model_checking",
    "stateless model checking of schedules: preemption-bounded (and, for the smallest harness, unbounded) DFS with prefix replay over all interleavings of 2-3 real threads at hooked scheduling points (acquire/release of every Mutex/RwLock and every atomic operation of the crates - the check links a copy of the working tree whose std::sync paths are redirected to the verif-hooks shim - plus inside the critical section, between template elements, inside filter chains, around API calls); each execution compared with the sequential baseline",
-   "For nine harnesses on shared Parser/Template/PartialStore objects built with the lazy compiler, every interleaving up to the preemption bound is executed on the real code: every call must return exactly its sequential result, no interleaving may deadlock or panic, and a sequential re-run on the used objects must still equal the baseline. The first and every failing schedule are replayed twice (determinism); a thread not reaching its next point in 10 s, or a replay divergence, is a machinery failure, never a verdict.",
+   "For twelve harnesses (2-4 threads; first touch of lazily compiled partials, valid and broken; stateful constructs; failing renders; dynamic arguments with every renderable executed twice; interrupts with text after them; two concurrent parses of never-seen text) on shared Parser/Template/PartialStore objects built with the lazy compiler, every interleaving up to the preemption bound is executed on the real code: every call must return exactly its sequential result, no interleaving may deadlock or panic, and a sequential re-run on the used objects must still equal the baseline. The first and every failing schedule are replayed twice (determinism); a thread not reaching its next point in 10 s, or a replay divergence, is a machinery failure, never a verdict.",
    "sequentially consistent interleavings only; scheduling points = every std::sync Mutex/RwLock/atomic of the three crates (textual redirection, reported in the evidence; falls back to the committed lazy-cache hook if the redirected copy does not compile) and the public plugin API; Arc/LazyLock/thread_local are not points; an auxiliary free-running stress run is labelled sampling and not claimed as coverage",
    "DESIGN.md §5 C20"),
 }
